@@ -188,7 +188,7 @@ func (d *jsonlineDecoder) scanAmmos() (DecodedAmmo, error) {
 	}
 	i := int(d.ammoNum) % length
 	a := d.ammos[i]
-	if d.ammoNum > 0 && i == length-1 {
+	if i == length-1 {
 		d.passNum++
 	}
 	d.ammoNum++
